@@ -5,7 +5,7 @@ from checks.models import ALL_MODELS, TOL_BY_MODEL, EXTRA_ARGS
 
 CHECK = Check(
     "C04",
-    props_modules=["OW.Props.C04", "OW.Props.C04Nd"],
+    props_modules=["OW.Props.C04", "OW.Props.C04Nd", "OW.Props.C04NdTables"],
     families=[Family("W", rtol=1e-9, atol_scale=1e-12, tol_by_model=TOL_BY_MODEL, args=["models=" + ",".join(ALL_MODELS), "n=12"] + EXTRA_ARGS)],
     level="proof",
     trusted=[
@@ -23,8 +23,7 @@ CHECK = Check(
                  "cover scalar-parameter specs (table parameters: view-level fact param_decoding_table only)",
                  "the states array is at least as wide as every cell's state vector (a narrower array makes the code copy past the row; caller error)",
                  "table-valued parameters have at most one dimension (true of all 41 specs)"],
-    partial=["wrapperNd_refines for table-valued parameters: cellParams' table branch is not connected to param_decoding_table yet",
-             "single_cell_eq for table-valued parameters: the layout lemma is proved for all-scalar specs (layout_scalar, cellParams_scalar); "
+    partial=["single_cell_eq for table-valued parameters: the layout lemma is proved for all-scalar specs (layout_scalar, cellParams_scalar); "
              "for tables the per-cell decoding is covered by the correspondence and by the in-worker single-cell oracle only"],
 )
 
